@@ -97,7 +97,7 @@ func GenRun(rng *rand.Rand, p SParams) *SHistory {
 		g.maxEver = d.Seq
 	}
 	d := NewSDriverOpt(cfg, initial, p.Serial)
-	h := &SHistory{Cfg: cfg, Initial: initial}
+	h := &SHistory{Cfg: cfg, Initial: initial, Serial: p.Serial}
 	if p.Dcp {
 		d = NewSDriverDcp(cfg, initial, p.Auto, p.Health, p.MaxVbs)
 		h.IsDcp, h.Auto = true, p.Auto
